@@ -635,8 +635,12 @@ def boot(cfg=None):
     from ..boot import boot as _boot
 
     _boot()
-    # warm-up: one kernel so that lazy imports are done before the first measured run
-    KernelSet("A(i) = B(i)", {"A": "s", "B": "s"}, 1 << 20)
+    # warm-up: one kernel so that lazy imports are done before the first measured run (on a heavily
+    # loaded machine even this generation can exceed its budget: not a reason to fail the batch)
+    try:
+        KernelSet("A(i) = B(i)", {"A": "s", "B": "s"}, 1 << 20)
+    except Skip:
+        pass
 
 
 def gen_plan(seed, cfg):
